@@ -134,6 +134,10 @@ func newPSSession(parties []uint16, msgLen int, tpk []byte, msg [][]byte) (*psSe
 }
 
 // jointPS: blind request signed by each signer from its stored share, unblinded, proof built in the given order, verified.
+// psSignerCache: when non-nil, jointPS keeps ONE signer object per party and lets it serve every request (long-lived signers, as a
+// service would hold them) instead of re-creating it for every request.
+var psSignerCache map[uint16]tss.Signer
+
 func jointPS(parties []uint16, t int, msgLen int, stored map[uint16][]byte, signers []uint16, msg [][]byte, reporter uint16) error {
 	s := scheme{Name: "ps", MsgLen: msgLen}
 	tpk, err := psThresholdPK(parties, t, msgLen, stored[reporter], reporter)
@@ -146,9 +150,17 @@ func jointPS(parties []uint16, t int, msgLen int, stored map[uint16][]byte, sign
 	}
 	var wits []ps.SignatureWitness
 	for _, p := range signers {
-		sg, err := s.signerFrom(p, parties, t, stored[p])
-		if err != nil {
-			return fmt.Errorf("SetShareData(%d): %v", p, err)
+		var sg tss.Signer
+		if psSignerCache != nil && psSignerCache[p] != nil {
+			sg = psSignerCache[p]
+		} else {
+			sg, err = s.signerFrom(p, parties, t, stored[p])
+			if err != nil {
+				return fmt.Errorf("SetShareData(%d): %v", p, err)
+			}
+			if psSignerCache != nil {
+				psSignerCache[p] = sg
+			}
 		}
 		sig, err := sg.Sign(context.Background(), sess.request)
 		if err != nil {
